@@ -67,6 +67,8 @@ MNext ==
           /\ LET d == InitDrift(rec) IN
              /\ (d # {} => Report("DRIFT", rec, d))
              /\ (("C10.switch" \in Check /\ rec.st.switchOn) => Report("FAIL", rec, {"C10.switch"}))
+     ELSE IF ~rec.judge
+     THEN ghost' = GhostNext(ghost, StepAt(l + 1))      \* prefix step (judged as the last step of another behaviour)
      ELSE LET step == StepAt(l + 1)
               g2   == GhostNext(ghost, step)
               f    == Fails(step, ghost, g2, Check)
